@@ -17,7 +17,7 @@ def run(j):
     path = os.path.join(VERIF, p["file"])
     src = open(path).read().splitlines()
     line = next(i + 1 for i, l in enumerate(src) if l.startswith(f"def {p['func']}("))
-    env = dict(os.environ, PYTHONPATH=f"{VERIF}:/repo")
+    env = dict(os.environ, PYTHONPATH=f"{VERIF}:{os.environ.get('SYMX_REPO', '/repo')}")
     t0 = time.time()
     cmd = [sys.executable, "-m", "crosshair", "check", "--report_all", "--per_condition_timeout", str(p.get("timeout", 20)),
            f"{path}:{line}"]
